@@ -749,7 +749,7 @@ func genDim(rt *rapid.T, label string, allowZero bool) float64 {
 }
 
 type OptSpec struct {
-	NoUnits    bool // never rescale the case to units far from pixels
+	NoUnits     bool // never rescale the case to units far from pixels
 	CBs         []int
 	Lays        []int
 	Poss        []int // Pos*
